@@ -218,6 +218,11 @@ class VttContext:
       float(end) if end is not None else "unbounded"
     )
 
+    if end is not None and round(end, 3) <= round(begin, 3):
+      # time codes have millisecond resolution: the cue would begin and end on the same time code
+      LOGGER.debug("Skipping an interval shorter than one millisecond.")
+      return
+
     # filter the ISD to remove unsupported features
 
     for vtt_filter in self._filters:
